@@ -203,6 +203,7 @@ Proof.
   all: try apply nstep_alloc_node.
   all: try (eapply nstep_commit_push; eauto; fail).
   all: try (apply nstep_set_back; eapply wtarget_isnode; [exact I|exact Hl|reflexivity]).
+  all: try (apply nstep_sameA; first [apply sameA_alloc_raw | apply sameA_dealloc_raw]).
   all: pose proof (a_gs _ _ I) as G0; destruct (hpc_holder _ _ _ _ I Hl eq_refl) as [Ehp Emt]; rewrite Ehp in G0; cbn [at_] in G0.
   all: try (apply nstep_PB_next; [exact G0|eapply wtarget_isnode; [exact I|exact Hl|reflexivity]]).
   all: try (eapply nstep_E_s1; [exact G0|eapply wtarget_isnode; [exact I|exact Hl|reflexivity]]).
